@@ -426,6 +426,7 @@ func Verif_C37_ListenerClose() {
 		verifrt.Assert(len(conn.names) == nreq+1 && conn.names[nreq] == "cancel-streamlocal-forward@openssh.com", "Close sends the cancel request")
 		var m streamLocalChannelForwardMsg
 		verifrt.Assert(Unmarshal(conn.payloads[nreq], &m) == nil && m.socketPath == p, "cancel request names the listener's address")
+		verifrt.Assert(len(cl.forwards.entries) == 1 && cl.forwards.entries[0].network == "tcp", "Close unregisters exactly the closed listener")
 		_, err := lu.Accept()
 		if queued {
 			verifrt.Assert(err == c37ErrAccept, "a forward queued before Close is still handed to Accept")
@@ -439,6 +440,7 @@ func Verif_C37_ListenerClose() {
 		verifrt.Assert(len(conn.names) == nreq+1 && conn.names[nreq] == "cancel-tcpip-forward", "Close sends the cancel request")
 		var m channelForwardMsg
 		verifrt.Assert(Unmarshal(conn.payloads[nreq], &m) == nil && m.addr == "h" && m.rport == 7, "cancel request names the listener's address")
+		verifrt.Assert(len(cl.forwards.entries) == 1 && cl.forwards.entries[0].network == "unix", "Close unregisters exactly the closed listener")
 		_, err := lt.Accept()
 		verifrt.Assert(err == io.EOF, "Accept after Close returns io.EOF")
 		verifrt.Assert(!cl.forwards.forward("tcp", "h:7", nil, &c37NewCh{}), "forward for a closed listener is refused")
